@@ -353,6 +353,12 @@ class Pipeline:
         self.bad_methods = {}     # (design index, method name) -> first diagnostic
         self.generate(designs, cmds)
         todo = [i for i in range(len(designs)) if i not in self.failed]
+        if rounds == 0:   # whole-design programs: no method isolation, a design that does not compile just fails
+            with cf.ThreadPoolExecutor(max_workers=8) as ex:
+                for i, rc, out in ex.map(self._compile_gen, todo):
+                    if rc != 0:
+                        self.failed[i] = ("compile", "error", out[-3000:])
+            return self.bad_methods
         for rnd in range(rounds):
             broken = []
             with cf.ThreadPoolExecutor(max_workers=8) as ex:
